@@ -499,14 +499,15 @@ impl TypedStmt {
                 let mut collection = env.get(identifier).unwrap();
                 let mut accessed = vec![];
                 enum Assign {
-                    Array(Vec<usize>, usize, Vec<usize>),
+                    // array before the access, bits per element, index, number of elements
+                    Array(Vec<usize>, usize, Vec<usize>, usize),
                     Tuple(Vec<usize>, usize, usize),
                 }
                 for (access, _) in accessors {
                     match access {
                         Accessor::ArrayAccess { array_ty, .. } => {
                             let array_before_access = collection.clone();
-                            let (elem_bits, _) = array_ty
+                            let (elem_bits, num_elems) = array_ty
                                 .unwrap_array_size(prg, circuit.const_sizes())
                                 .expect("Found a non-array value in an array access expr: {ty}");
                             let index = indexes.next().unwrap();
@@ -540,7 +541,12 @@ impl TypedStmt {
                                 // an element of a valid size (even though it will not be used)
                                 collection = vec![0; elem_bits]
                             }
-                            accessed.push(Assign::Array(array_before_access, elem_bits, index));
+                            accessed.push(Assign::Array(
+                                array_before_access,
+                                elem_bits,
+                                index,
+                                num_elems,
+                            ));
                         }
                         Accessor::TupleAccess { tuple_ty, index } => {
                             let tuple_before_access = collection.clone();
@@ -603,8 +609,8 @@ impl TypedStmt {
                 }
                 for assign in accessed.into_iter().rev() {
                     match assign {
-                        Assign::Array(mut array, elem_bits, mut index) => {
-                            let size = array.len() / elem_bits;
+                        Assign::Array(mut array, elem_bits, mut index, size) => {
+                            // `size` elements, also when they are zero-sized (`array` is then empty)
                             let index_bits = Type::Unsigned(UnsignedNumType::Usize)
                                 .size_in_bits_for_defs(prg, circuit.const_sizes());
                             extend_to_bits(
